@@ -174,8 +174,10 @@ Definition spec_update (s : sstate) (sink_nil : bool) (trigger : root) (j f : ch
               match fail with
               | Some k =>
                   if k <? lenN drop then
-                    (* the sink fails at its k-th call: an error, k nodes gone, the refused one reported last *)
-                    (mkS t (ss_just s1) (ss_fin s1) (ss_pin s1) (ss_latest s1) (ss_applied s1) (ss_bal s1) (ss_spe s1) true,
+                    (* the sink fails at its k-th call: an error, the k acknowledged nodes gone, the refused one (reported last)
+                       and everything else retained; the tree is whatever is left (a forest until the next prune) *)
+                    let gone := firstn (N.to_nat k) (log_refs log) in
+                    (with_tree s1 (filter (fun n => negb (ref_mem (s_ref n) gone)) t),
                      EErr, calls_ok && (lenN log =? k + 1))
                   else (prune_to s1 a, EVal RUnit, calls_ok && refs_same_set (log_refs log) (map s_ref drop))
               | None => (prune_to s1 a, EVal RUnit, calls_ok && refs_same_set (log_refs log) (map s_ref drop))
